@@ -139,6 +139,7 @@ pub enum Call {
     Rename,
     Unlink,
     Mkdir,
+    Rmdir,
     Flock,
     Truncate,
 }
@@ -155,6 +156,7 @@ impl Call {
             Call::Rename => "rename",
             Call::Unlink => "unlink",
             Call::Mkdir => "mkdir",
+            Call::Rmdir => "rmdir",
             Call::Flock => "flock",
             Call::Truncate => "truncate",
         }
@@ -659,6 +661,24 @@ impl Sim {
         if err == 0 {
             self.disk.dirs.insert(rel.to_string());
         } else if !existed && self.fired_at.as_ref().is_some_and(|f| f.0 + 1 == self.fallible_seen) {
+            ev.fault = "err";
+        }
+        self.record(ev);
+    }
+
+    /// rmdir of a directory under the root (the crate itself never removes directories; modelled so
+    /// that a change which starts to do so is judged by the oracles instead of ending as a harness error)
+    pub fn pre_rmdir(&mut self, rel: &str) -> Verdict {
+        self.pre_mut(Call::Rmdir, rel)
+    }
+    pub fn post_rmdir(&mut self, rel: &str, err: c_int) {
+        let mut ev = self.ev(Call::Rmdir, rel, true);
+        ev.err = err;
+        if err == 0 {
+            if !self.disk.dirs.remove(rel) {
+                self.unmodelled(&format!("rmdir of {rel} succeeded but the model has no such directory"));
+            }
+        } else if self.fired_at.as_ref().is_some_and(|f| f.0 + 1 == self.fallible_seen) {
             ev.fault = "err";
         }
         self.record(ev);
